@@ -95,6 +95,13 @@ def extra(mon, tier, seed):
                 if g % p_ == 0:
                     if r.status == "panic":
                         mon.count("own_A_congruent_zero_refused")
+                        msg = r.f.get("msg", "")
+                        # A is the integer 0 here: if the panic names an error kind it must be the "is zero" kind
+                        if "PublicKeyModLargeSafePrimeIsZero" in msg and "PublicKeyIsZero" not in msg:
+                            mon.violation("c04:own_A_zero_reported_with_wrong_kind",
+                                          "client key A = 0 (g=%d, N'=%d) is refused but reported as 'mod large safe prime is zero' instead of 'is zero': %s" % (g, p_, msg[:160]), replay)
+                        elif "PublicKeyIsZero" in msg:
+                            mon.count("own_A_zero_kind_named_correctly")
                     elif r.ok and M.le(r.b("A")) % p_ == 0:
                         mon.violation("c04:own_A_zero_accepted", "client produced A = 0 (mod N') for g=%d N'=%d" % (g, p_), replay)
                     mon.cell(("own_A_zero", p_, g))
